@@ -1,7 +1,7 @@
 use crate::codegen::CodegenContext;
 use crate::errors::CoreResult;
 use crate::parser::code_map::Span;
-use crate::parser::{Expression, Located, Token};
+use crate::parser::{Expression, Identifier, Located, Token};
 use codespan_reporting::diagnostic::Diagnostic;
 
 pub struct ConfigExtractor<'a> {
@@ -40,6 +40,41 @@ impl<'a> ConfigExtractor<'a> {
         match self.try_get_expression(key) {
             Some(expr) => ctx.evaluate_expression_as_string(&expr, true),
             None => Ok(None),
+        }
+    }
+
+    /// A configuration value that names a bank or a segment
+    pub fn get_identifier(&self, ctx: &mut CodegenContext, key: &str) -> CoreResult<Identifier> {
+        let name = self.get_string(ctx, key)?;
+        self.to_identifier(key, name)
+    }
+
+    pub fn try_get_identifier(
+        &self,
+        ctx: &mut CodegenContext,
+        key: &str,
+    ) -> CoreResult<Option<Identifier>> {
+        match self.try_get_string(ctx, key)? {
+            Some(name) => self.to_identifier(key, name).map(Some),
+            None => Ok(None),
+        }
+    }
+
+    fn to_identifier(&self, key: &str, name: String) -> CoreResult<Identifier> {
+        if name.contains('.') {
+            let span = self
+                .try_get_kvp(key)
+                .map(|(k, v)| k.span.merge(v.span))
+                .unwrap_or(self.config_span);
+            Err(Diagnostic::error()
+                .with_message(format!(
+                    "'{}' is not a valid name: a name may not contain a period",
+                    name
+                ))
+                .with_labels(vec![span.to_label()])
+                .into())
+        } else {
+            Ok(Identifier::new(name))
         }
     }
 
